@@ -42,6 +42,10 @@ func projectResponse(rule *RuleSpec, m proto.Message) proto.Message {
 
 // panicViolation turns a recovered panic into a violation (any property).
 func panicViolation(res *CheckResult, out *Outcome) bool {
+	if out.Hang {
+		res.violate("hang", "hang", "ServeHTTP did not return within %s although both peers had finished", watchdog)
+		return true
+	}
 	if out.Panic == "" || out.PanicScripted {
 		return false
 	}
